@@ -75,11 +75,43 @@ func mutateWord(r *rng, w []byte, k int) []byte {
 }
 
 var dictKeys = []starlark.Value{starlark.String("a"), starlark.String("b"), starlark.Bytes("c"),
-	starlark.Tuple{starlark.String("a")}, starlark.String(""), starlark.Tuple{}}
+	starlark.Tuple{starlark.String("a")}, starlark.String(""), starlark.Tuple{},
+	starlark.None, starlark.False, starlark.MakeInt(0), starlark.MakeInt(1), starlark.Tuple{starlark.None}}
+
+// zero-like and other atomic values: as dict values, dict keys (where hashable) and sequence elements
+func atom(r *rng) starlark.Value {
+	switch r.below(10) {
+	case 0, 1:
+		return starlark.None
+	case 2:
+		return starlark.False
+	case 3:
+		return starlark.True
+	case 4:
+		return starlark.MakeInt(0)
+	case 5:
+		return starlark.MakeInt(r.below(3) - 1)
+	case 6:
+		return starlark.String("")
+	case 7:
+		return starlark.Tuple{}
+	case 8:
+		return starlark.NewList(nil)
+	}
+	return starlark.Bytes("")
+}
+
+// the zero-like values the exhaustive small enumerations are built from
+func zeros() []starlark.Value {
+	return []starlark.Value{starlark.None, starlark.False, starlark.MakeInt(0), starlark.String(""), starlark.Tuple{}, starlark.NewList(nil)}
+}
 
 // randVal: a random nested value of height at most h
 func randVal(r *rng, h int) starlark.Value {
-	if h <= 1 || r.chance(35) {
+	if r.chance(22) {
+		return atom(r)
+	}
+	if h <= 1 || r.chance(30) {
 		w := randWord(r, r.below(4))
 		if r.chance(70) {
 			return starlark.String(w)
@@ -134,7 +166,15 @@ func clone(v starlark.Value) starlark.Value {
 // changes its kind, a dict gains, loses or reorders a key
 func mutate(r *rng, v starlark.Value, h int) starlark.Value {
 	switch v := v.(type) {
+	case starlark.NoneType, starlark.Bool, starlark.Int:
+		if r.chance(50) {
+			return atom(r)
+		}
+		return randVal(r, h)
 	case starlark.String:
+		if r.chance(15) {
+			return atom(r)
+		}
 		return starlark.String(mutateWord(r, []byte(v), 1+r.below(2)))
 	case starlark.Bytes:
 		if r.chance(20) {
@@ -300,6 +340,70 @@ func streams(r *rng, tier string) {
 			eqCase(a, b, 1+r.below(4))
 		}
 	}
+	// 4b. zero-like values, exhaustively: None, False, 0, "", (), [] as sequence elements (all tuples and lists of
+	//     up to 2 of them, every pair) and as dict values and keys (all dicts of up to 2 entries over 3 (6 thorough)
+	//     hashable keys and the 6 values, every ordered pair)
+	zs := zeros()
+	var zseqs [][]starlark.Value
+	zseqs = append(zseqs, nil)
+	for _, x := range zs {
+		zseqs = append(zseqs, []starlark.Value{x})
+		for _, y := range zs {
+			zseqs = append(zseqs, []starlark.Value{x, y})
+		}
+	}
+	mkSeq := func(kind byte, es []starlark.Value) starlark.Value {
+		c := make([]starlark.Value, len(es))
+		for i, e := range es {
+			c[i] = clone(e)
+		}
+		if kind == 't' {
+			return starlark.Tuple(c)
+		}
+		return starlark.NewList(c)
+	}
+	for _, kk := range [][2]byte{{'t', 't'}, {'l', 'l'}, {'t', 'l'}} {
+		for _, x := range zseqs {
+			for _, y := range zseqs {
+				diffCase("diff.zero", mkSeq(kk[0], x), mkSeq(kk[1], y), 10, 0)
+			}
+		}
+	}
+	zkeys := []starlark.Value{starlark.None, starlark.MakeInt(0), starlark.String("a")}
+	if thorough {
+		zkeys = append(zkeys, starlark.False, starlark.String(""), starlark.Tuple{})
+	}
+	type entry struct{ k, v starlark.Value }
+	var zdicts [][]entry
+	zdicts = append(zdicts, nil)
+	for _, k1 := range zkeys {
+		for _, v1 := range zs {
+			zdicts = append(zdicts, []entry{{k1, v1}})
+			for _, k2 := range zkeys {
+				if equal(k1, k2) {
+					continue
+				}
+				for _, v2 := range zs {
+					zdicts = append(zdicts, []entry{{k1, v1}, {k2, v2}})
+				}
+			}
+		}
+	}
+	mkDict := func(es []entry) starlark.Value {
+		d := starlark.NewDict(len(es))
+		for _, e := range es {
+			d.SetKey(e.k, clone(e.v))
+		}
+		return d
+	}
+	for i, x := range zdicts {
+		for j, y := range zdicts {
+			if thorough && (i*31+j)%4 != 0 { // 859 dicts: every fourth pair
+				continue
+			}
+			diffCase("diff.zerodict", mkDict(x), mkDict(y), 10, 0)
+		}
+	}
 	// 5. the depth limit: small depths against values of height 1..5
 	nDepth := 1500
 	if thorough {
@@ -344,6 +448,11 @@ func streams(r *rng, tier string) {
 }
 
 var envVals = []func() starlark.Value{
+	func() starlark.Value { return starlark.None },
+	func() starlark.Value { return starlark.False },
+	func() starlark.Value { return starlark.MakeInt(0) },
+	func() starlark.Value { return starlark.String("") },
+	func() starlark.Value { return starlark.NewList(nil) },
 	func() starlark.Value { return starlark.String("x") },
 	func() starlark.Value { return starlark.String("y") },
 	func() starlark.Value { return starlark.Tuple{} },
